@@ -183,10 +183,9 @@ func instantiateGenericModel(
 	clonedStruct := reducedStruct.Clone()
 
 	rawParamNames := linq.Map(typeParamReplacementNodes, func(tParamNode *SymbolNode) string {
-		if tParamNode.Kind.IsBuiltin() {
-			return tParamNode.Id.Name
-		}
-		return tParamNode.Data.(*metadata.TypeParamDeclMeta).Name
+		// The node's key carries the name of the type argument whatever kind of node it is
+		// (a builtin, a declared struct / enum / alias, or a type parameter)
+		return tParamNode.Id.Name
 	})
 
 	if modelNameTransformer != nil {
